@@ -98,7 +98,8 @@ struct Value {
             }
 
             default: {
-                number_ = val.number_;
+                number_             = val.number_;
+                val.number_.Natural = SizeT64{0}; // An Undefined value holds no payload (Merge, [] and += build on it).
             }
         }
 
@@ -232,7 +233,8 @@ struct Value {
                 }
 
                 default: {
-                    number_ = val.number_;
+                    number_             = val.number_;
+                    val.number_.Natural = SizeT64{0}; // An Undefined value holds no payload.
                 }
             }
         }
